@@ -258,7 +258,7 @@ pub struct Profile {
     pub len: usize,
     pub w_open: u64, pub w_close: u64, pub w_deposit: u64, pub w_withdraw: u64, pub w_liq: u64,
     pub w_funding: u64, pub w_block: u64, pub w_oracle: u64, pub w_cfg: u64, pub w_malformed: u64,
-    pub w_steer_liq: u64, pub w_pause: u64, pub w_caps: u64, pub w_pcf: u64, pub w_c16: u64, pub w_band: u64, pub w_drain: u64,
+    pub w_steer_liq: u64, pub w_pause: u64, pub w_caps: u64, pub w_pcf: u64, pub w_c16: u64, pub w_band: u64, pub w_drain: u64, pub w_zeroeq: u64,
 }
 
 impl Profile {
@@ -279,7 +279,7 @@ impl Profile {
     }
     pub fn general(len: usize) -> Profile {
         Profile { len, w_open: 36, w_close: 10, w_deposit: 4, w_withdraw: 5, w_liq: 4, w_funding: 5, w_block: 14,
-                  w_oracle: 4, w_cfg: 2, w_malformed: 5, w_steer_liq: 7, w_pause: 1, w_caps: 2, w_pcf: 0, w_c16: 0, w_band: 0, w_drain: 0 }
+                  w_oracle: 4, w_cfg: 2, w_malformed: 5, w_steer_liq: 7, w_pause: 1, w_caps: 2, w_pcf: 0, w_c16: 0, w_band: 0, w_drain: 0, w_zeroeq: 3 }
     }
 }
 
@@ -399,7 +399,7 @@ pub fn drain_macro(tr: &mut Tracer, w: &mut World, rng: &mut Rng, v: u32) {
 pub fn history(tr: &mut Tracer, w: &mut World, rng: &mut Rng, p: &Profile) {
     let d = unit(w.d.decimals);
     let total = p.w_open + p.w_close + p.w_deposit + p.w_withdraw + p.w_liq + p.w_funding + p.w_block + p.w_oracle
-        + p.w_cfg + p.w_malformed + p.w_steer_liq + p.w_pause + p.w_caps + p.w_pcf + p.w_c16 + p.w_band + p.w_drain;
+        + p.w_cfg + p.w_malformed + p.w_steer_liq + p.w_pause + p.w_caps + p.w_pcf + p.w_c16 + p.w_band + p.w_drain + p.w_zeroeq;
     for _ in 0..p.len {
         let nv = w.vamms.len() as u64;
         let v = ID_VAMM0 + rng.below(nv) as u32;
@@ -587,6 +587,45 @@ pub fn history(tr: &mut Tracer, w: &mut World, rng: &mut Rng, p: &Profile) {
                 tr.step(w, &op);
             }
             if whole { tr.step(w, &Op::Eng { sender: ID_OWNER, funds: 0, m: EMsg::UpdCfg { owner: None, ifund: None, fpool: None, init: None, maint: None, plr: Some(cfg.partial_liquidation_ratio.u128()), liqfee: None } }); }
+        } else if take(p.w_zeroeq) {
+            // a position whose equity (margin after funding + spot PnL) is negative is topped up to exactly zero, one
+            // unit above or one below, and closed in the same block: the boundary between "pays out" and "bad debt"
+            let ps = with_position(w);
+            let mut cand: Vec<(u32, u32, u128)> = vec![];
+            for (pv, pt) in ps.iter() {
+                let mwf: Option<me::Position> = w.q(&w.engine, &me::QueryMsg::PositionWithFundingPayment { vamm: w.addr(*pv).to_string(), trader: w.addr(*pt).to_string() });
+                if let (Some(m), Some(pn)) = (mwf, spot_pnl(w, *pv, *pt)) {
+                    if pn.unrealized_pnl.negative && pn.unrealized_pnl.value.u128() > m.margin.u128() {
+                        cand.push((*pv, *pt, pn.unrealized_pnl.value.u128() - m.margin.u128()));
+                    }
+                }
+            }
+            if cand.is_empty() {
+                // make one: a leveraged long, then a larger short by someone else pushes the price under it
+                let free: Vec<u32> = TRADERS.iter().cloned().filter(|x| w.position(v, *x).is_none()).collect();
+                if free.len() < 2 { continue; }
+                let q = vamm_state(w, v).quote_asset_reserve.u128();
+                let init = eng_cfg(w).initial_margin_ratio.u128();
+                let li = std::cmp::max(std::cmp::min(if init == 0 { 10 } else { d / init }, 10), 1);
+                let lev = li * d;
+                tr.step(w, &Op::Vamm { sender: ID_OWNER, v, m: VMsg::UpdCfg { hold: Some(0), oi: Some(0), toll: None, spread: None, fluct: Some(0), engine: None, ifund: None, feed: None, twap: None } });
+                let na = q / 50; if na == 0 || na / li > 2_000_000u128 * d { continue; }
+                let op = mk_open(w, free[0], v, Side::Buy, na * d / lev + 1, lev, 0); if !tr.step(w, &op) { continue; }
+                let nb = q / 100 * (12 + 120 / li);
+                let op = mk_open(w, free[1], v, Side::Sell, nb * d / lev + 1, lev, 0); if !tr.step(w, &op) { continue; }
+                let mwf: Option<me::Position> = w.q(&w.engine, &me::QueryMsg::PositionWithFundingPayment { vamm: w.addr(v).to_string(), trader: w.addr(free[0]).to_string() });
+                if let (Some(m), Some(pn)) = (mwf, spot_pnl(w, v, free[0])) {
+                    if pn.unrealized_pnl.negative && pn.unrealized_pnl.value.u128() > m.margin.u128() {
+                        cand.push((v, free[0], pn.unrealized_pnl.value.u128() - m.margin.u128()));
+                    }
+                }
+                if cand.is_empty() { continue; }
+            }
+            let (pv, pt, short) = *rng.pick(&cand);
+            let amt = match rng.below(4) { 0 => short + 1, 1 => short.saturating_sub(1).max(1), _ => short };
+            tr.step(w, &Op::Eng { sender: pt, funds: if w.d.native { amt } else { 0 }, m: EMsg::Deposit { vamm: pv, amt } });
+            let fees = w.position(pv, pt).map(|p| calc_fee(w, pv, p.notional.u128())).unwrap_or(0);
+            tr.step(w, &Op::Eng { sender: pt, funds: if w.d.native { fees } else { 0 }, m: EMsg::Close { vamm: pv, limit: 0 } });
         } else if take(p.w_drain) {
             drain_macro(tr, w, rng, v);
         } else if take(p.w_c16) {
